@@ -1,11 +1,3 @@
 #!/bin/bash
-# Run once after a fresh restore (offline): builds the Lean project (all models, lemmas,
-# property theorems, drivers).  Harnesses are built by the checks themselves from /repo's
-# current working tree.
-set -e
-cd "$(dirname "$0")/../lean"
-lake build 2>&1 | tail -5
-# every lean_exe driver
-for exe in $(grep -A1 '^\[\[lean_exe\]\]' lakefile.toml | sed -n 's/^name = "\(.*\)"/\1/p'); do
-  lake build "$exe" 2>&1 | tail -1
-done
+# MANIFEST.setup_cmd: see tools/setup.py
+cd "$(dirname "$0")/.." && exec python3 tools/setup.py
